@@ -241,14 +241,12 @@ def purity_replay(chk, scalar, name, meth, sig, why):
             lines.append('bool same=true; for(size_t i=0;i<before.size();i++) same = same && (before[i]==after[i]); printf("\\nR params_unchanged %d\\n",(int)same);')
             # ... every OTHER documented evaluator of the solution at another point (one evaluator may leave something another one reads)
             others = []
+            valid = dict(((A.virtual_of(api_), sg_), api_) for fn_, api_, sg_ in c15.api_list(chk.world(), scalar))
             for cap in OTHER_CAPS.get(name, []):
                 m2, s2 = cap[:-1].split('(')
-                if 'F' in s2:
+                if 'F' in s2 or (m2, s2) not in valid:
                     continue
-                try:
-                    api2 = pde.api_name(m2)
-                except KeyError:
-                    continue
+                api2 = valid[(m2, s2)]
                 others.append('{ volatile Scalar o_ = %s<Scalar>(%s); (void)o_; }' % (api2, ','.join('(Scalar)0.81' if q == 'S' else '2' for q in s2.split(',')) if s2 else ''))
             lines.append('%s<Scalar>(%s); %s masa_init<Scalar>("b","%s"); masa_select_mms<Scalar>("a");' % (api, a2, ' '.join(others[:40]), name))
             lines.append('Scalar r2 = %s<Scalar>(%s); printf("R same_value %%d\\n", (int)(r1==r2 || (r1!=r1 && r2!=r2)));' % (api, a1))
